@@ -133,6 +133,10 @@ structure DS where
   callNo : Nat
   sb : Spec.SB Q
   impl : List String := []
+  cset : CSet Q := CSet.empty
+  actuation : List Bool := []
+  vplus : VecN Q := fun _ => 0
+  lastFDC : List String := []
 
 def DS.fresh (id : String) : DS :=
   let m : ModelS Q := ModelS.init
@@ -242,8 +246,189 @@ def ginit (d : DS) (t : Toks) : MatN Q × Toks :=
   if k = "z" then (fun _ _ => 0, t)
   else let (seed, t) := t.nat; (fun r c => pz seed 40 r c, t)
 
+
+/-- fixed-point (2^-100) Taylor evaluation of (cos x, sin x) for |x| of moderate size -/
+def cosSinApprox (x : Q) : Q × Q :=
+  let scale : Nat := 2 ^ 100
+  let rnd := fun (r : Q) => mkRat ((r * scale).floor) scale
+  let x := rnd x
+  let x2 := rnd (x * x)
+  -- sum_{k} (-1)^k x^{2k}/(2k)!  and  x^{2k+1}/(2k+1)!
+  let (c, s, _, _) := (List.range 40).foldl (fun (acc : Q × Q × Q × Q) k =>
+    let (c, s, tc, ts) := acc
+    let c := c + tc
+    let s := s + ts
+    let kk : Q := (k : Nat)
+    let tc' := rnd (-(tc * x2) / ((2 * kk + 1) * (2 * kk + 2)))
+    let ts' := rnd (-(ts * x2) / ((2 * kk + 2) * (2 * kk + 3)))
+    (c, s, tc', ts')) (0, 0, 1, x)
+  (c, s)
+
+def matVec (A : List (List Q)) (x : Nat → Q) : List Q :=
+  A.map (fun row => (zipIdx row).foldl (fun acc p => acc + p.1 * x p.2) 0)
+def matTVec (A : List (List Q)) (nv : Nat) (l : Nat → Q) : List Q :=
+  (List.range nv).map (fun j => (zipIdx A).foldl (fun acc p => acc + p.1.getD j 0 * l p.2) 0)
+def listAdd (a b : List Q) : List Q := (a.zip b).map (fun p => p.1 + p.2)
+def listSub (a b : List Q) : List Q := (a.zip b).map (fun p => p.1 - p.2)
+def hMat (Hs : List Q) (nd : Nat) : List (List Q) :=
+  (List.range nd).map (fun i => (List.range nd).map (fun j => Hs.getD (i * nd + j) 0))
+
+/-- spec-side quantities of the constrained system at the current state -/
+structure CSpec where
+  H : List (List Q)
+  N : List Q
+  G : List (List Q)
+  gamma : List Q
+  phi : List (Q × Q × Q)
+
+def DS.cspec (d : DS) : CSpec :=
+  let M := d.specModel; let st := d.specState
+  let nd := d.m.dofCount
+  { H := hMat (Spec.inertiaMatrix M st) nd
+    N := Spec.newtonEulerTau M { st with qdd := fun _ => 0 } d.fextFn
+    G := Spec.constraintJacobian M st d.cset
+    gamma := Spec.gammaSpec M st d.cset
+    phi := Spec.phiJets M st d.cset }
+
+def showMatL (A : List (List Q)) : String := showList A.flatten
+
+def doCsCall (d : DS) (name : String) (t : Toks) : Option (DS × String) :=
+  let m := d.m
+  let nd := m.dofCount
+  let nc := d.cset.size
+  let iv := implVec d
+  let ivf := fun (i : Nat) => iv.getD i 0
+  match name with
+  | "CJ" =>
+    let (u, t) := t.nat; let (sp, _) := t.nat
+    let (w, G) := calcConstraintsJacobian m d.w d.st d.cset (fun _ _ => 0) (u ≠ 0)
+    let r := out { d with w := w } name (showMat G nc nd)
+    some (if sp ≠ 0 then also r d "CJ.spec" (showMatL (Spec.constraintJacobian d.specModel d.specState d.cset)) else r)
+  | "CPE" =>
+    let (u, t) := t.nat; let (sp, _) := t.nat
+    let (w, e) := calcConstraintsPositionError m d.w d.st d.cset (fun _ => 0) (u ≠ 0)
+    let r := out { d with w := w } name (showVec e nc)
+    let phi := Spec.phiJets d.specModel d.specState d.cset
+    let spec := (zipIdx phi).map (fun p =>
+      match d.cset.cs.find? (fun c => c.row ≤ p.2 ∧ p.2 < c.row + c.T.length) with
+      | some c => if c.ctype = .contact then 0 else p.1.1
+      | none => 0)
+    some (if sp ≠ 0 then also r d "CPE.spec" (showList spec) else r)
+  | "CVE" =>
+    let (u, t) := t.nat; let (sp, _) := t.nat
+    let (w, _, e) := calcConstraintsVelocityError m d.w d.st d.qd d.cset (fun _ _ => 0) (fun _ => 0) (u ≠ 0)
+    let r := out { d with w := w } name (showVec e nc)
+    let phi := Spec.phiJets d.specModel d.specState d.cset
+    some (if sp ≠ 0 then also r d "CVE.spec" (showList (phi.map (·.2.1))) else r)
+  | "CSV" =>
+    let (u, t) := t.nat; let (sp, _) := t.nat
+    let (w, sv) := calcConstrainedSystemVariables m d.w d.st d.qd d.cset (u ≠ 0) d.fext
+    let r := out { d with w := w } name (" ".intercalate [showVec sv.gamma nc, showVec sv.err nc,
+      showVec sv.errd nc, showVec sv.C nd, showMat sv.G nc nd, showMat sv.H nd nd])
+    if sp = 0 then some r else
+    let cs := d.cspec
+    let errS := (zipIdx cs.phi).map (fun p =>
+      match d.cset.cs.find? (fun c => c.row ≤ p.2 ∧ p.2 < c.row + c.T.length) with
+      | some c => if c.ctype = .contact then 0 else p.1.1
+      | none => 0)
+    some (also r d "CSV.spec" (" ".intercalate [showList cs.gamma, showList errS,
+      showList (cs.phi.map (·.2.1)), showList cs.N, showMatL cs.G, showMatL cs.H]))
+  | "FDC" =>
+    let r := out d name (" ".intercalate d.impl)
+    if d.impl.isEmpty then some r else
+    let cs := d.cspec
+    let qdd := ivf
+    let lam := fun i => ivf (nd + i)
+    let lhs1 := listSub (listAdd (matVec cs.H qdd) cs.N) (matTVec cs.G nd lam)
+    let r := also (also r d "FDC.eom.lhs" (showList lhs1)) d "FDC.eom.rhs" (showVec d.tau nd)
+    let r := also (also r d "FDC.acc.lhs" (showList (matVec cs.G qdd))) d "FDC.acc.rhs" (showList cs.gamma)
+    let r := if d.lastFDC.isEmpty then r else
+      also (also r d "FDC.agree.lhs" (" ".intercalate d.impl)) d "FDC.agree.rhs" (" ".intercalate d.lastFDC)
+    some ({ r.1 with lastFDC := d.impl }, r.2)
+  | "IMP" =>
+    let r := out d name (" ".intercalate d.impl)
+    if d.impl.isEmpty then some r else
+    let cs := d.cspec
+    let qp := ivf
+    let lam := fun i => ivf (nd + i)
+    let dq := fun i => qp i - d.qd i
+    let lhs1 := listAdd (matVec cs.H dq) (matTVec cs.G nd lam)
+    let r := also (also r d "IMP.mom.lhs" (showList lhs1)) d "IMP.mom.rhs" (showList (lhs1.map (fun _ => 0)))
+    let r := also (also r d "IMP.vel.lhs" (showList (matVec cs.G qp))) d "IMP.vel.rhs" (showVec d.vplus nc)
+    let ke := fun (v : Nat → Q) => (zipIdx (matVec cs.H v)).foldl (fun acc p => acc + p.1 * v p.2) 0 / 2
+    let allZero := (List.range nc).all (fun i => d.vplus i = 0)
+    let gain := ke qp - ke d.qd
+    let r := if allZero then
+        also (also r d "IMP.ke.lhs" (showRat (if gain > 0 then gain else 0))) d "IMP.ke.rhs" "0"
+      else r
+    let r := if d.lastFDC.isEmpty then r else
+      also (also r d "IMP.agree.lhs" (" ".intercalate d.impl)) d "IMP.agree.rhs" (" ".intercalate d.lastFDC)
+    some ({ r.1 with lastFDC := d.impl }, r.2)
+  | "IDC" | "IDCR" =>
+    let r := out d name (" ".intercalate d.impl)
+    if d.impl.isEmpty then some r else
+    let cs := d.cspec
+    let qdd := ivf
+    let ta := fun i => ivf (nd + i)
+    let lam := fun i => ivf (2 * nd + i)
+    let lhs1 := listSub (listAdd (matVec cs.H qdd) cs.N) (matTVec cs.G nd lam)
+    let r := also (also r d (name ++ ".eom.lhs") (showList lhs1)) d (name ++ ".eom.rhs") (showVec ta nd)
+    let r := also (also r d (name ++ ".acc.lhs") (showList (matVec cs.G qdd))) d (name ++ ".acc.rhs") (showList cs.gamma)
+    let unact := (zipIdx d.actuation).filterMap (fun p => if p.1 then none else some p.2)
+    let act := (zipIdx d.actuation).filterMap (fun p => if p.1 then some p.2 else none)
+    let r := also (also r d (name ++ ".unact.lhs") (showList (unact.map ta))) d (name ++ ".unact.rhs") (showList (unact.map (fun _ => 0)))
+    let r := if name = "IDC" then
+        also (also r d "IDC.track.lhs" (showList (act.map qdd))) d "IDC.track.rhs" (showList (act.map d.qdd))
+      else r
+    some r
+  | "FULLACT" =>
+    let r := out d name (" ".intercalate d.impl)
+    let G := Spec.constraintJacobian d.specModel d.specState d.cset
+    let unact := (zipIdx d.actuation).filterMap (fun p => if p.1 then none else some p.2)
+    let GPT : LMat Q := G.map (fun row => unact.map (fun j => row.getD j 0))
+    let full := lmRank GPT = unact.length
+    some (also r d "FULLACT.spec" (if full then "1" else "0"))
+  | "CAQD" =>
+    let r := out d name (" ".intercalate d.impl)
+    if d.impl.isEmpty then some r else
+    let (wts, _) := t.rats nd
+    let G := Spec.constraintJacobian d.specModel d.specState d.cset
+    let r := also (also r d "CAQD.vel.lhs" (showList (matVec G ivf))) d "CAQD.vel.rhs" (showList ((List.range nc).map (fun _ => 0)))
+    -- optimality: W (qd - qd0) is a combination of the rows of G
+    let res : List Q := (List.range nd).map (fun i => wts.getD i 0 * (ivf i - d.qd i))
+    let GGt : LMat Q := G.map (fun a => G.map (fun b => lvDot a b))
+    let rhs : List Q := G.map (fun a => -(lvDot a res))
+    let mu := (lmSolve GGt rhs).getD []
+    let lhs := listAdd res (matTVec G nd (fun i => mu.getD i 0))
+    some (also (also r d "CAQD.opt.lhs" (showList lhs)) d "CAQD.opt.rhs" (showList (lhs.map (fun _ => 0))))
+  | "CAQ" =>
+    let r := out d name (" ".intercalate d.impl)
+    if d.impl.isEmpty then some r else
+    if d.impl.headD "0" ≠ "1" then some r else
+    -- success reported: independently evaluate the constraint position error and the quaternion norms
+    let Qv := (d.impl.drop 1).map (fun s => (parseRat s).getD 0)
+    let cs := Qv.map cosSinApprox
+    let st : Spec.State Q := ⟨fun i => Qv.getD i 0, fun i => (cs.getD i (1, 0)).1, fun i => (cs.getD i (1, 0)).2,
+                               fun _ => 0, fun _ => 0⟩
+    let M := d.specModel
+    let phi := (Spec.phiJets M st d.cset).map (·.1)
+    let phiC := (zipIdx phi).map (fun p =>
+      match d.cset.cs.find? (fun c => c.row ≤ p.2 ∧ p.2 < c.row + c.T.length) with
+      | some c => if c.ctype = .contact then 0 else p.1
+      | none => 0)
+    let r := also (also r d "CAQ.err.lhs" (showList phiC)) d "CAQ.err.rhs" (showList (phiC.map (fun _ => 0)))
+    let qn := M.nodes.filterMap (fun nd => if Spec.isQuatNode nd then
+        some (let k := nd.qIdx; st.q k * st.q k + st.q (k+1) * st.q (k+1) + st.q (k+2) * st.q (k+2) + st.q nd.wIdx * st.q nd.wIdx)
+      else none)
+    some (also (also r d "CAQ.unit.lhs" (showList qn)) d "CAQ.unit.rhs" (showList (qn.map (fun _ => 1))))
+  | _ => none
+
+
 def doCall (d : DS) (t : Toks) : DS × String :=
   let (name, t) := t.next
+  match doCsCall d name t with
+  | some r => r
+  | none =>
   let m := d.m
   let nd := m.dofCount
   match name with
@@ -499,15 +684,32 @@ def step (d : DS) (line : String) : DS × Option String :=
       let (es, _) := parseQEntries t n
       ({ d with st := ⟨fun i => (es.getD i (0,1,0)).1, fun i => (es.getD i (0,1,0)).2.1,
                         fun i => (es.getD i (0,1,0)).2.2⟩ }, none)
-    | "qd" => let (n, t) := t.nat; let (l, _) := t.rats n; ({ d with qd := vecOfList l }, none)
+    | "qd" => let (n, t) := t.nat; let (l, _) := t.rats n; ({ d with qd := vecOfList l, lastFDC := [] }, none)
     | "qdd" => let (n, t) := t.nat; let (l, _) := t.rats n; ({ d with qdd := vecOfList l }, none)
-    | "tau" => let (n, t) := t.nat; let (l, _) := t.rats n; ({ d with tau := vecOfList l }, none)
+    | "tau" => let (n, t) := t.nat; let (l, _) := t.rats n; ({ d with tau := vecOfList l, lastFDC := [] }, none)
     | "fext" =>
       let (k, t) := t.next
-      if k = "none" then ({ d with fext := none }, none) else
+      if k = "none" then ({ d with fext := none, lastFDC := [] }, none) else
       match k.toNat? with
       | none => (d, none)
-      | some n => let (l, _) := t.svs n; ({ d with fext := some (fun i => l.getD i SV.zero) }, none)
+      | some n => let (l, _) := t.svs n; ({ d with fext := some (fun i => l.getD i SV.zero), lastFDC := [] }, none)
+    | "cs_new" => ({ d with cset := CSet.empty, actuation := [], vplus := fun _ => 0, lastFDC := [] }, none)
+    | "cs_contact" =>
+      let (body, t) := t.nat; let (p, t) := t.v3; let (n, t) := t.v3; let (uid, _) := t.nat
+      let cs' := d.cset.addContact body p n uid
+      let (d, s) := out { d with cset := cs' } cmd s!"ok {cs'.size - 1}"; (d, some s)
+    | "cs_loop" =>
+      let (idP, t) := t.nat; let (idS, t) := t.nat; let (XP, t) := t.xt; let (XS, t) := t.xt
+      let (ax, t) := t.sv; let (baum, t) := t.nat; let (ts, t) := t.rat; let (uid, _) := t.nat
+      let cs' := d.cset.addLoop idP idS XP XS ax (baum ≠ 0) (1 / ts) uid
+      let (d, s) := out { d with cset := cs' } cmd s!"ok {cs'.size - 1}"; (d, some s)
+    | "cs_bind" | "cs_solver" => (d, none)
+    | "cs_actuation" =>
+      let (n, t) := t.nat; let (l, _) := t.rats n
+      ({ d with actuation := l.map (· ≠ 0) }, none)
+    | "cs_vplus" =>
+      let (n, t) := t.nat; let (l, _) := t.rats n
+      ({ d with vplus := vecOfList l }, none)
     | "alg" =>
       let op := rest.headD ""
       let args := (rest.drop 1).map (fun s => (parseRat s).getD 0)
